@@ -29,6 +29,9 @@ type VerifSchemaRef struct {
 	Schema   *spec.Schema
 }
 
+// VerifReload re-analyzes the document the analyzer holds, as Flatten does after every rewriting step.
+func (s *Spec) VerifReload() { s.reload() }
+
 // VerifDump returns a copy of every private index of the analyzed spec.
 func (s *Spec) VerifDump() map[string]interface{} {
 	schemas := func(m map[string]SchemaRef) map[string]VerifSchemaRef {
